@@ -46,16 +46,40 @@ def entry_states(E, c, ci, self_cls):
             env[n] = v
             if is_refkind(k):
                 st.pc = st.pc + (z3.And(v.t >= 1, v.t <= st.alloc),)
+                tc = E.type_constraint(v)
+                if tc is not None:
+                    st.pc = st.pc + (tc,)
         st.env = env
+        # the entry heap is well-typed: reference fields of the parameter objects (two levels deep)
+        # hold valid, correctly typed references
+        st = _well_typed(E, st, [v for v in env.values() if v.kind.tag == "ref"], 2)
         yield st, dict(env), "/".join("%s:%s" % (n, k) for n, k in zip(names, combo) if len(dict(plist)[n]) > 1)
 
 
-def verify_function(qual, prop, program=None, reg=None, self_cls=None, tag=None):
+def _well_typed(E, st, objs, depth):
+    if depth == 0:
+        return st
+    nxt = []
+    for o in objs:
+        for f, fk in E.R.all_fields(o.kind[1], E.P).items():
+            ks = alts(fk)
+            if len(ks) != 1 or not is_refkind(ks[0]):
+                continue
+            v = E._read_alt(st, o.t, f, ks[0])
+            st = E.assume_valid_ref(st, v)
+            if ks[0].tag == "ref":
+                nxt.append(v)
+    return _well_typed(E, st, nxt, depth - 1)
+
+
+def verify_function(qual, prop, program=None, reg=None, self_cls=None, tag=None, exclusions=None):
     """returns FuncReport; obligations named <prop>.<Class.func>[@SelfCls].<kind>..."""
     R = reg or REG
     rep = FuncReport(qual)
     P = program or frontend.Program()
-    c = R.contracts.get(qual)
+    c = R.contracts.get(qual + "@" + self_cls) if self_cls else None
+    if c is None:
+        c = R.contracts.get(qual)
     if c is None:
         raise SpecError("no contract for %s" % qual)
     try:
@@ -70,6 +94,7 @@ def verify_function(qual, prop, program=None, reg=None, self_cls=None, tag=None)
     fname = qual.partition(":")[2] + (("@" + self_cls) if self_cls else "") + (("#" + tag) if tag else "")
     E = Engine(P, R)
     E.prop = prop
+    E.exclusions = exclusions or {}
     obls = E.obls
     try:
         n_cases = 0
@@ -135,6 +160,14 @@ def verify_function(qual, prop, program=None, reg=None, self_cls=None, tag=None)
     return rep
 
 
+def _excl(E, name, g, entry, env, fr):
+    """a listed known finding excludes its region: the obligation is re-proved outside it"""
+    regs = getattr(E, "exclusions", {}).get(name)
+    if not regs:
+        return g
+    return z3.Or([g] + [E.spec_bool(r, entry, env, entry, fr) for r in regs])
+
+
 def _obl(E, name, kind, text=""):
     return E.obl(name, kind, text)
 
@@ -171,9 +204,12 @@ def _check_normal(E, c, fr, prop, fname, st, env, val, entry, label):
     env2 = dict(env)
     env2["result"] = val
     for i, e in enumerate(c.ensures):
+        props, _txt = calls.clause_props(e)
+        if props is not None and prop not in props:
+            continue
         g = E.spec_bool(e, st, env2, entry, fr)
         ob = E.obl("%s.%s.post.%d" % (prop, fname, i), "post", e)
-        ob.add(st.pc, g, note=label)
+        ob.add(st.pc, _excl(E, ob.name, g, entry, env, fr), note=label)
     _check_frame(E, c, c.modifies, fr, prop, fname, st, env, entry, "frame")
 
 
@@ -187,11 +223,11 @@ def _check_raise(E, c, fr, prop, fname, st, env, exc, entry, label):
     if declared is None:
         ob = E.obl("%s.%s.safety" % (prop, fname), "safety", "no undeclared exception escapes")
         why = (exc.aux or {}).get("why", "")
-        ob.add(st.pc, z3.BoolVal(False), note="%s escapes%s" % (ename, (": " + why) if why else ""))
+        ob.add(st.pc, _excl(E, ob.name, z3.BoolVal(False), entry, env, fr), note="%s escapes%s" % (ename, (": " + why) if why else ""))
         return
     g = E.spec_bool(c.raises[declared], entry, env, entry, fr)
     ob = E.obl("%s.%s.raises.%s" % (prop, fname, declared), "raises", c.raises[declared])
-    ob.add(st.pc, g, note=label)
+    ob.add(st.pc, _excl(E, ob.name, g, entry, env, fr), note=label)
     for i, e in enumerate(c.ensures_on_raise.get(declared, [])):
         g = E.spec_bool(e, st, env, entry, fr)
         ob = E.obl("%s.%s.raises.%s.state.%d" % (prop, fname, declared, i), "raises", e)
